@@ -14,7 +14,7 @@ from units import BVUnit
 import bigint as BI
 import fp as FP
 
-P = ["C02", "C03"]
+P = ["C02"]
 
 MDEF = r'''
 jpv_u128 __CPROVER_uninterpreted_mul(uint64_t, uint64_t);
@@ -69,7 +69,7 @@ def ghost_mont(q):
 
 def units():
     us = []
-    for n, tier in ((384, "quick"), (256, "quick")):
+    for n, tier in ((384, "thorough"), (256, "thorough")):
         N = n // 64
         q = FP.FB(n) + "::montgomery_reduce"
         cs = {q: c_mont(n), FP.FB(n) + "::reduce": FP.fb_reduce(n)}
